@@ -31,7 +31,7 @@ var shard, nshards = 0, 1
 // mine reports whether the current case id belongs to this shard; generators always run (the PRNG
 // stream is the same in every shard), only the evaluation is divided.
 func mine() bool {
-	if id < 33 { // the constants and the hand-written witness cases: shard 0 (first replays)
+	if id < 36 { // the constants and the hand-written witness cases: shard 0 (first replays)
 		if shard == 0 {
 			return true
 		}
@@ -241,6 +241,28 @@ func numText(r *hx.Rand, v float64) string {
 	default:
 		return strconv.FormatFloat(v, 'x', -1, 64)
 	}
+}
+
+// integers around the int64 / 19-digit boundary of the reader's integer fast path (seed C04-W): the
+// written value must arrive as value × factor and as OrigValue whatever path parses it
+var bigIntTexts = []string{"9223372036854775807", "9223372036854775808", "9999999999999999999", "10000000000000000000",
+	"999999999999999999", "1000000000000000000", "9223372036854775806", "9223372036854775809", "18446744073709551615",
+	"18446744073709551616", "99999999999999999999", "12345678901234567890", "09223372036854775808", "922337203685477580", "92233720368547758080"}
+
+// valText picks a value and its text for a reader-fed measurement.
+func valText(r *hx.Rand) (string, float64) {
+	if r.Chance(1, 12) {
+		t := hx.Pick(r, bigIntTexts)
+		pv, _ := strconv.ParseFloat(t, 64)
+		return t, pv
+	}
+	v := genVal(r)
+	t := numText(r, v)
+	pv, err := strconv.ParseFloat(t, 64)
+	if err != nil && !math.IsInf(pv, 0) {
+		panic("generator produced unparsable number " + t)
+	}
+	return t, pv
 }
 
 var metaKeys = []string{"better", "assume", "foo"}
@@ -486,12 +508,7 @@ func genFile(r *hx.Rand) {
 		} else {
 			l := fileLine{}
 			for j := 1 + r.Intn(4); j > 0; j-- {
-				v := genVal(r)
-				t := numText(r, v)
-				pv, err := strconv.ParseFloat(t, 64)
-				if err != nil && !math.IsInf(pv, 0) {
-					panic("generator produced unparsable number " + t)
-				}
+				t, pv := valText(r)
 				l.meas = append(l.meas, meas{t, pv, hx.Pick(r, pool)})
 			}
 			lines = append(lines, l)
@@ -802,12 +819,7 @@ func genHist(r *hx.Rand) {
 		for j := 1 + r.Intn(4); j > 0; j-- {
 			l := histLine{name: hx.Pick(r, []string{"Keep", "Skip"})}
 			for k := 1 + r.Intn(4); k > 0; k-- {
-				v := genVal(r)
-				t := numText(r, v)
-				pv, err := strconv.ParseFloat(t, 64)
-				if err != nil && !math.IsInf(pv, 0) {
-					panic("generator produced unparsable number " + t)
-				}
+				t, pv := valText(r)
 				l.meas = append(l.meas, meas{t, pv, hx.Pick(r, pool)})
 			}
 			files[fi] = append(files[fi], l)
@@ -1079,6 +1091,15 @@ func keepCase(lines []histLine, fkind, pat string, conc bool) {
 	}
 	// one worker: take every Match, wait, then read them
 	worker := func(barrier func()) string {
+		// every worker matches its own clones: the Filter is what is shared. (A Result is not: a file-key
+		// term makes Match build the Result's lazy config index, ConfigIndex, i.e. write to it.)
+		results := func() []*benchfmt.Result {
+			var l []*benchfmt.Result
+			for _, res := range results {
+				l = append(l, res.Clone())
+			}
+			return l
+		}()
 		ms := make([]benchproc.Match, len(results))
 		for i, res := range results {
 			ms[i], _ = flt.Match(res)
@@ -1148,9 +1169,7 @@ func genKeep(r *hx.Rand) {
 	for j := 2 + r.Intn(3); j > 0; j-- {
 		l := histLine{name: hx.Pick(r, []string{"Keep", "Skip"})}
 		for k := 1 + r.Intn(4); k > 0; k-- {
-			v := genVal(r)
-			t := numText(r, v)
-			pv, _ := strconv.ParseFloat(t, 64)
+			t, pv := valText(r)
 			l.meas = append(l.meas, meas{t, pv, hx.Pick(r, pool)})
 		}
 		lines = append(lines, l)
@@ -1299,6 +1318,15 @@ func main() {
 		keepCase(keepLines, w[0], w[1], false)
 	}
 	keepCase(keepLines, "u", "ns/op", true)
+	// seed C04-W: 19- and 20-digit integers in rescaled and pass-through units
+	for _, u := range []string{"ns/op", "MB/s", "B/op"} {
+		var ms []meas
+		for _, t := range bigIntTexts {
+			pv, _ := strconv.ParseFloat(t, 64)
+			ms = append(ms, meas{t, pv, u})
+		}
+		fileCase([]fileLine{{meas: ms}}, []string{u}, []string{u})
+	}
 	// seed C04-U: OR of a `.unit` term with a whole-result term that is true
 	orLines := []histLine{
 		{"Keep", []meas{m("100", 100, "ns/op"), m("5", 5, "widgets/op"), m("2", 2, "MB/s")}},
